@@ -27,7 +27,11 @@ BANNED = (
     "fix-ups at absolute offsets; value-receiver methods that mutate a copy; dropped default values; reordering of list "
     "entries; dependence on log level, wall clock, or process-local time zone; shadowed error variables; generic helpers "
     "shifting in a narrow type; signed-integer sign bits; decimal-versus-hex formatting; warn-once flags; quadratic copying; "
-    "XOR instead of AND-NOT; encoder/decoder validation asymmetry; re-slicing the caller's slice variable."
+    "XOR instead of AND-NOT; encoder/decoder validation asymmetry; re-slicing the caller's slice variable; Go map iteration "
+    "order; additive folds that wrap; zero representatives in modular arithmetic; bit sets consumed as enums; setters that "
+    "normalise neighbouring fields; local slices aliasing the array they were meant to snapshot; dropping or merging entries "
+    "that equal their neighbour or another field; label / suffix stripping that empties a list; mutable sentinel errors; "
+    "nested skip hints; optional trailing fields with non-nested presence conditions."
 )
 
 DEFAULT_THEME = (
